@@ -1,4 +1,15 @@
 import NbioVerif.Properties.C08
 #print axioms Http.c08_no_hang
+#print axioms Http.c08_no_panic
 #print axioms Http.c08_retained_bound
+#print axioms Http.c08_body_bound
+#print axioms Http.c08_content_length
+#print axioms Http.c08_chunk_size
+#print axioms Http.c08_transfer_encoding
+#print axioms Http.c08_trailer_names
+#print axioms Http.c08_missing_lf
+#print axioms Http.c08_missing_cr
+#print axioms Http.c08_bare_lf_in_header
+#print axioms Http.c08_silent_after_close
 #print axioms Http.errIn_machine
+#print axioms Scan.loopC_eq_loop
